@@ -75,7 +75,7 @@ func (h *harness) configCases() {
 		im.Hist("config:skipped-no-binary")
 		return
 	}
-	n := 14
+	n := 8
 	if h.c.Thorough() {
 		n = 80
 	}
@@ -83,9 +83,12 @@ func (h *harness) configCases() {
 	Must(err)
 	defer os.RemoveAll(dir)
 	var sets [][]grule
-	for _, cs := range corpusCases()[:8] {
-		sets = append(sets, cs.rules)
+	for i, cs := range corpusCases()[:8] {
+		if h.c.Thorough() || i == 0 || i == 2 || i == 3 || i == 4 || i == 6 {
+			sets = append(sets, cs.rules)
+		}
 	}
+	sets = append(sets, []grule{{Bad: []string{"no-action"}}}) // `- {}`
 	// well-formed sets aimed at the node's own ping (their effect is observed through `ping`)
 	for i := 0; i < n/2; i++ {
 		gs := []grule{targetedRule(r, packet{cfgNode, "Abcdefgh", cfgNode, "ping"})}
@@ -239,7 +242,7 @@ func (h *harness) pingSelf(gs []grule, sock string) string {
 		return ""
 	}
 	defer ctl.Close()
-	wait := 1500 * time.Millisecond
+	wait := 1000 * time.Millisecond
 	if exp != "PingSilence" {
 		wait = 8 * time.Second
 	}
